@@ -232,8 +232,8 @@ package mint
 //@   safety C06
 //@   requires minv(m)
 //@   requires totalsinv()
-//@   loop range(ecashIssued) invariant 0 <= i && i <= n && totalIssued == esum.str(keys, mapvals(ecashIssued), i) % 18446744073709551616
-//@   loop range(ecashRedeemed) invariant 0 <= i && i <= n && totalRedeemed == esum.str(keys, mapvals(ecashRedeemed), i) % 18446744073709551616 && totalIssued == db.issuedtotal
+//@   loop range(ecashIssued) invariant 0 <= it && it <= n && totalIssued == esum.str(keys, mapvals(ecashIssued), it) % 18446744073709551616
+//@   loop range(ecashRedeemed) invariant 0 <= it && it <= n && totalRedeemed == esum.str(keys, mapvals(ecashRedeemed), it) % 18446744073709551616 && totalIssued == db.issuedtotal
 //@   ensures @balance [C16] err == nil ==> r0 == db.issuedtotal - db.redeemedtotal
 //@   ensures @errisfault [C16] err != nil ==> db.faults > old(db.faults)
 
